@@ -235,10 +235,11 @@ Proof.
       apply andb_true_iff in Hsw. destruct Hsw as [Hit _]. destruct it; try discriminate. destruct lvl; [|discriminate].
       cbn [impl_scalar scalar_class] in *. destruct (nth_error db k2) as [T|]; [|discriminate].
       destruct w as [p2|].
-      * destruct (own_outer p2); [discriminate|]. destruct (decor p2); [discriminate|].
-        destruct (filter_opt (fun r => ipass (look_own r) (fun _ => None) p2) T) as [[|r1 rs]|]; try discriminate.
+      * destruct (own_outer p2); [discriminate|]. destruct (has_sub p2) eqn:Ehs2; [discriminate|].
+        destruct (decor p2); [discriminate|].
+        destruct (filter_opt (fun r => ipass (look_own r) (fun _ => None) p2) T) as [[|r1 [|r2 rs]]|]; try discriminate.
         destruct (nth_error r1 i); discriminate.
-      * destruct T as [|r1 T]; [discriminate|]. destruct (nth_error r1 i); discriminate.
+      * destruct T as [|r1 [|r2 T]]; try discriminate. destruct (nth_error r1 i); discriminate.
     + destruct (forallb scal_ok (map (impl_scalar db) (scalars_of p))) eqn:Eok; cbn [negb] in *; [|congruence].
       destruct (sel_rows_filter db [] items (Some p)
                  (fun r => ipass (look_own r) (scal_table db) p) (fun r => map_opt (filter_item r) items) L t) as [rows [Hf Hm]].
